@@ -2,6 +2,8 @@
 and reset."""
 import numpy as np
 
+EPS = np.finfo(float).eps
+
 from vlib import e2e, gen, mrun, ctx, drive, taps
 from vlib.interp import InterpMonitor
 
@@ -140,6 +142,29 @@ def run_real(case):
         if ev["ret"] is None or mon.viols:
             continue
         want = _o.user_of(rec, ev["pb"], ev["x"])
+        # the point the values are RECORDED for is the solver's point itself:
+        # its image before projection must be where the functions were
+        # called (a projection beyond rounding means the values belong to
+        # another point than the one they are recorded for)
+        from vlib import truth as _t
+        raw = _t.user_point(rec.built, bool(_o.completed_options(rec).get(
+            "scale")), ev["x"], project=False)
+        if raw is not None and np.all(np.isfinite(raw)) and \
+                np.all(np.isfinite(want)):
+            bt = rec.built
+            wid = np.where(np.isfinite(bt.ub - bt.lb), bt.ub - bt.lb, 0.0)
+            lim = 256 * EPS * (np.maximum(1.0, np.maximum(np.abs(raw),
+                                                          np.abs(want)))
+                               + wid + float(np.max(np.abs(raw))))
+            if np.any(np.abs(raw - want) > lim):
+                from vlib.oracles import V
+                mon.viols.append(V(
+                    "recorded_value_other_point",
+                    f"evaluation {ev['i']}: the values are recorded for the "
+                    f"solver's point whose image is {raw.tolist()[:4]} but "
+                    f"were measured at its projection {want.tolist()[:4]}",
+                    mechanism="recorded_projected_point"))
+                break
         sl = rec.run.log[ev["log0"]:ev.get("log1", ev["log0"])]
         if rec.built.fun is not None and \
                 not any(e["t"] == "obj" for e in sl):
